@@ -11,6 +11,7 @@
   C16 (policy drain), C17 (connections), C20 (worker pool).
 -/
 import Absnfs.FsLemmas
+import Absnfs.BytesComm
 import Gen.Facts
 open Absnfs Absnfs.Fs
 
@@ -45,5 +46,34 @@ example : ¬ ([[100], [116, 48, 97]] : Path).isPrefixOf [[100], [116, 49, 97]] =
 /-- AttrCache.Get changes the map and the LRU list only while it holds the write lock (the model's two-phase Get:
     decision under the read lock, mutation under the write lock after a re-check) -/
 theorem gen_attr_cache_get_locking : Gen.attrCacheGetMutatesUnderWriteLock = true := by decide
+
+/-- concurrent WRITEs to disjoint ranges of one file: the two WriteAt calls commute, so both serial orders leave
+    the same bytes (holes included) -/
+theorem disjoint_writes_commute (d : Bytes) (o1 o2 : Nat) (w1 w2 : Bytes) (h1 : w1 ≠ []) (h2 : w2 ≠ [])
+    (hd : o1 + w1.length ≤ o2 ∨ o2 + w2.length ≤ o1) :
+    writeBytes (writeBytes d o1 w1) o2 w2 = writeBytes (writeBytes d o2 w2) o1 w1 :=
+  writeBytes_comm_disjoint d o1 o2 w1 w2 h1 h2 hd
+
+/-- any number of pairwise non-overlapping, non-empty WRITEs: every serial order of them leaves the same file
+    contents — the READ that follows the completed WRITEs has one possible answer -/
+theorem disjoint_writes_any_order {ws ws' : List (Nat × Bytes)} (hp : ws.Perm ws') (hdis : ws.Pairwise Disj)
+    (hne : ∀ x ∈ ws, x.2 ≠ []) (d : Bytes) : writeAll d ws = writeAll d ws' := writeAll_perm hp hdis hne d
+
+/-- and that answer holds each WRITE's payload in its own range: a range written once reads back exactly,
+    whatever non-overlapping writes were applied after it (this is the content oracle of the harness's
+    completed-writes-then-read scenario) -/
+theorem written_range_reads_back (d : Bytes) (o : Nat) (w : Bytes) (hw : w ≠ []) (ws : List (Nat × Bytes))
+    (hdis : ∀ x ∈ ws, x.2 ≠ [] ∧ (x.1 + x.2.length ≤ o ∨ o + w.length ≤ x.1)) :
+    slice (writeAll (writeBytes d o w) ws) o w.length = w := range_survives_disjoint_writes d o w hw ws hdis
+
+/-- two WRITEs of the same range: the serial order decides, the later payload is what stays -/
+theorem same_range_last_writer_wins (d : Bytes) (o : Nat) (w1 w2 : Bytes) (h1 : w1 ≠ []) (h2 : w2 ≠ [])
+    (hl : w1.length = w2.length) : writeBytes (writeBytes d o w1) o w2 = writeBytes d o w2 :=
+  writeBytes_overwrite d o w1 w2 h1 h2 hl
+
+/-- non-vacuity: three writers of 2 bytes each at 0, 2, 4 into an empty file, applied in the order 2, 0, 1 -/
+example : writeAll [] [(4, [99, 99]), (0, [97, 97]), (2, [98, 98])] = [97, 97, 98, 98, 99, 99] := by decide
+example : List.Pairwise Disj [(4, [99, 99]), (0, [97, 97]), (2, [98, 98])] := by
+  simp [Disj]
 
 end Props.C29
